@@ -87,6 +87,50 @@ func c01TraceElem(g *core.FuncInfo, x ast.Expr, at ast.Node, scope []*core.FuncI
 	return out, n > 0
 }
 
+// c01IsBranchList: e (in fn) denotes the whole list of one creator's branches, BranchIDByCreators[k]:
+// the index expression itself (single-definition locals looked through), the result of a module
+// accessor every return of which is such an expression, or a parameter of fn that receives such a list
+// at every call of fn made within scope (bounded depth; scope nil: parameters are not followed).
+func c01IsBranchList(fn *core.FuncInfo, e ast.Expr, scope []*core.FuncInfo, depth int) bool {
+	if fn == nil || e == nil || depth < 0 {
+		return false
+	}
+	r := resolveLocal(fn, e)
+	if ix, ok := r.(*ast.IndexExpr); ok {
+		_, pth := fieldPath(fn, ix.X)
+		return len(pth) > 0 && pth[len(pth)-1] == c01BranchLists
+	}
+	if pv, ok := c01Producer(fn, r); ok && depth > 0 {
+		n := 0
+		for _, rp := range pv.G.ReturnPoints() {
+			ret := rp.Node().(*ast.ReturnStmt)
+			n++
+			if len(ret.Results) != 1 || !c01IsBranchList(pv.G, ret.Results[0], nil, depth-1) {
+				return false
+			}
+		}
+		return n > 0
+	}
+	v := canonVar(fn, varOf(fn, r))
+	i := c01ParamIndex(fn, v)
+	if i < 0 || depth == 0 || fn.Obj == nil || len(assignsToVar(fn, v)) > 0 {
+		return false
+	}
+	n := 0
+	for _, h := range scope {
+		for _, cs := range h.Calls() {
+			if cs.Callee != types.Object(fn.Obj) || i >= len(cs.Call.Args) {
+				continue
+			}
+			n++
+			if !c01IsBranchList(h, cs.Call.Args[i], scope, depth-1) {
+				return false
+			}
+		}
+	}
+	return n > 0
+}
+
 func c01ArrivalOrder(c *core.Ctx) {
 	p := c.P
 	withLits := func(fs []*core.FuncInfo) []*core.FuncInfo {
@@ -101,17 +145,8 @@ func c01ArrivalOrder(c *core.Ctx) {
 	c.Clause("C01.forkpairs", func() {
 		root := c.Fn("vecengine.Engine.fillEventVectors")
 		scope := withLits(core.ReachableScoped(p, []*core.FuncInfo{root}, func(f *core.FuncInfo) bool { return core.RelPkg(f.Pkg.PkgPath) == "vecengine" }))
-		// the list of one creator's branches, as a whole
-		branchList := func(fn *core.FuncInfo, e ast.Expr) *ast.IndexExpr {
-			ix, ok := resolveLocal(fn, e).(*ast.IndexExpr)
-			if !ok {
-				return nil
-			}
-			if _, pth := fieldPath(fn, ix.X); len(pth) == 0 || pth[len(pth)-1] != c01BranchLists {
-				return nil
-			}
-			return ix
-		}
+		// the list of one creator's branches, as a whole (also behind an accessor or a helper's parameter)
+		branchList := func(fn *core.FuncInfo, e ast.Expr) bool { return c01IsBranchList(fn, e, scope, 3) }
 		const key = "fork detection compares every pair of a creator's branches"
 		const rule = "T10 (arrival-ordered list) + provenance through helpers"
 		const bad = "the branches of a creator are numbered in the order in which the fork events arrive, so a scan that picks branches by their position in that list finds a fork in one instance and misses it in another that received the same events in a different order: vector clocks, frames and cheater lists diverge"
@@ -147,7 +182,7 @@ func c01ArrivalOrder(c *core.Ctx) {
 					if !seen {
 						its = append(its, it)
 					}
-					if it.Coll != nil && !it.FromZero && it.Counted && branchList(s.Fn, it.Coll) != nil {
+					if it.Coll != nil && !it.FromZero && it.Counted && branchList(s.Fn, it.Coll) {
 						// the counted spelling of the triangular half: for i := 0 …; for j := i + 1; j < len(list); j++
 						counted := false
 						if fs, isFor := it.Stmt.(*ast.ForStmt); isFor {
@@ -156,7 +191,7 @@ func c01ArrivalOrder(c *core.Ctx) {
 									if loop == it.Stmt {
 										continue
 									}
-									if o, isIt := c01IterationOf(s.Fn, loop); isIt && o.Index != nil && o.FromZero && o.Coll != nil && branchList(s.Fn, o.Coll) != nil && mentionsObj(s.Fn, as.Rhs[0], o.Index) {
+									if o, isIt := c01IterationOf(s.Fn, loop); isIt && o.Index != nil && o.FromZero && o.Coll != nil && branchList(s.Fn, o.Coll) && mentionsObj(s.Fn, as.Rhs[0], o.Index) {
 										counted = true
 									}
 								}
@@ -170,13 +205,13 @@ func c01ArrivalOrder(c *core.Ctx) {
 						ok, why = false, "a loop that supplies the compared branches in "+short(s.Fn.Name)+" does not run over the branch list from its first element"
 						continue
 					}
-					if branchList(s.Fn, it.Coll) != nil {
+					if branchList(s.Fn, it.Coll) {
 						continue
 					}
 					// a sub-range is acceptable only as the triangular half of a symmetric pair scan: every
 					// bound is taken from the index of the other loop over the same list
 					okTri := false
-					if se, isSlice := resolveLocal(s.Fn, it.Coll).(*ast.SliceExpr); isSlice && branchList(s.Fn, se.X) != nil {
+					if se, isSlice := resolveLocal(s.Fn, it.Coll).(*ast.SliceExpr); isSlice && branchList(s.Fn, se.X) {
 						okTri = se.Low != nil || se.High != nil
 						for _, b := range []ast.Expr{se.Low, se.High, se.Max} {
 							if b == nil {
@@ -187,7 +222,7 @@ func c01ArrivalOrder(c *core.Ctx) {
 								if loop == it.Stmt {
 									continue
 								}
-								if o, isIt := c01IterationOf(s.Fn, loop); isIt && o.Index != nil && o.Coll != nil && branchList(s.Fn, o.Coll) != nil && mentionsObj(s.Fn, b, o.Index) {
+								if o, isIt := c01IterationOf(s.Fn, loop); isIt && o.Index != nil && o.Coll != nil && branchList(s.Fn, o.Coll) && mentionsObj(s.Fn, b, o.Index) {
 									fromOuter = true
 								}
 							}
